@@ -279,3 +279,31 @@ Example alu_example :
   vm_binop Shr gen_kind_Int16 (-32768) 3 0 = Some (Some (-4096)) /\
   vm_binop Rem gen_kind_Int32 7 0 0 = Some None.
 Proof. vm_compute. intuition congruence. Qed.
+
+(* ---- comparisons ---- *)
+
+Lemma canon_inj t x y : in_range t x -> in_range t y -> canon x = canon y -> x = y.
+Proof. intros Hx Hy H. rewrite <- (wrap_canon_id t x Hx), <- (wrap_canon_id t y Hy), H. reflexivity. Qed.
+
+Lemma canon_eqb t x y : in_range t x -> in_range t y -> (canon x =? canon y) = (x =? y).
+Proof.
+  intros Hx Hy. destruct (Z.eqb_spec x y) as [->|Hne]; [apply Z.eqb_refl|].
+  apply Z.eqb_neq. intros H. apply Hne, (canon_inj t x y Hx Hy H).
+Qed.
+
+Theorem vm_cmp_correct c k t x y : kind_ity k = Some t -> in_range t x -> in_range t y ->
+  vm_cmp c k x y = Some (Some (cmp c x y)).
+Proof.
+  intros Hk Hx Hy. unfold vm_cmp, select_cmp_tbl.
+  destruct c; kinds Hk;
+    (match goal with |- context [zassoc ?tbl ?k] =>
+       let E := fresh "E" in let cnd := fresh "cnd" in
+       destruct (zassoc tbl k) as [cnd|] eqn:E; vm_compute in E; [injection E as <-|discriminate E]
+     end);
+    unfold gen_ifint; simpl; unfold cmp;
+    rewrite ?(canon_eqb _ x y Hx Hy);
+    try (match type of Hx with in_range ?t _ =>
+           rewrite (wrap_canon_id U64 x (in_range_to_U64 t x eq_refl Hx)), (wrap_canon_id U64 y (in_range_to_U64 t y eq_refl Hy)) end);
+    try (rewrite (canon_small _ x Hx), (canon_small _ y Hy) by congruence);
+    reflexivity.
+Qed.
